@@ -6,6 +6,12 @@ CHECKERS = dict(C08_rt.CHECKERS)
 
 
 def run(ctx):
+    from vf.pyvc import crosscheck
+
+    crosscheck.guard(ctx)  # the concrete-shape tensor layer (used by the scalar / batch-1 contracts here) against real torch
+    from vf.pyvc import crosscheck_sym
+
+    crosscheck_sym.guard(ctx)  # the symbolic-shape tensor layer against real torch, before the clauses that rest on it
     api.run_vcs(ctx, C08_vc.vcs(ctx), {"C08.P.draw_bounds": "spec_augment_draw_parameters: every drawn width/count/start/centre/shift respects the absolute and length-proportional limits, for all lengths, T, F, limits and uniform draws in [0,1)"})
     api.run_vcs(ctx, C08_vc.apply_vcs(ctx), {"C08.P.apply_masks": "spec_augment_apply_parameters without warps for SYMBOLIC batch size, frames, coefficients and numbers of masks: an entry is zeroed exactly when a time mask covers its frame or a frequency mask covers its coefficient, every other entry is the input's; shape preserved"})
     C08_rt.run_bounded(ctx)
